@@ -89,6 +89,11 @@ func buildScript(vc *VC, assumes []*Term, final *Term, wantModel bool) string {
 	if len(lits) > 0 {
 		needStrlen = true
 	}
+	for _, u := range []string{"str.upper", "str.lower", "str.cat"} {
+		if _, ok := ufs[u]; ok {
+			needStrlen = true
+		}
+	}
 	delete(vars, "null")
 	for _, k := range sortedKeys(vars) {
 		fmt.Fprintf(&sb, "(declare-fun %s () %s)\n", smtName(k), vars[k])
@@ -129,6 +134,11 @@ func buildScript(vc *VC, assumes []*Term, final *Term, wantModel bool) string {
 				fmt.Fprintf(&sb, "(assert (= (str.upper %s) %s))\n", smtName(l), smtName(l))
 			}
 		}
+		caseFacts(&sb, vc, lits, "str.upper", strings.ToUpper)
+	}
+	if _, ok := ufs["str.lower"]; ok {
+		sb.WriteString("(assert (forall ((s Str)) (! (= (strlen (str.lower s)) (strlen s)) :pattern ((str.lower s)))))\n")
+		caseFacts(&sb, vc, lits, "str.lower", strings.ToLower)
 	}
 	if _, ok := ufs["str.cat"]; ok {
 		sb.WriteString("(assert (forall ((a Str) (b Str) (c Str)) (! (=> (= (str.cat a b) (str.cat a c)) (= b c)) :pattern ((str.cat a b) (str.cat a c)))))\n")
@@ -211,6 +221,25 @@ func buildScript(vc *VC, assumes []*Term, final *Term, wantModel bool) string {
 		sb.WriteString("(get-model)\n")
 	}
 	return sb.String()
+}
+
+// caseFacts: f(lit) = lit' for every pair of literals of the query with conv(lit) == lit'.
+func caseFacts(sb *strings.Builder, vc *VC, lits []string, uf string, conv func(string) string) {
+	byVal := map[string]string{}
+	for _, l := range lits {
+		if s, ok := vc.strLits[l]; ok {
+			byVal[s] = l
+		}
+	}
+	for _, l := range lits {
+		s, ok := vc.strLits[l]
+		if !ok {
+			continue
+		}
+		if t, ok := byVal[conv(s)]; ok {
+			fmt.Fprintf(sb, "(assert (= (%s %s) %s))\n", uf, smtName(l), smtName(t))
+		}
+	}
 }
 
 type solverResult struct {
